@@ -10,6 +10,9 @@ Model/World.vos Model/World.vok Model/World.required_vos: Model/World.v Model/Va
 Model/Step.vo Model/Step.glob Model/Step.v.beautified Model/Step.required_vo: Model/Step.v Model/Val.vo Model/Syntax.vo Model/World.vo
 Model/Step.vio: Model/Step.v Model/Val.vio Model/Syntax.vio Model/World.vio
 Model/Step.vos Model/Step.vok Model/Step.required_vos: Model/Step.v Model/Val.vos Model/Syntax.vos Model/World.vos
-Extract/Extract.vo Extract/Extract.glob Extract/Extract.v.beautified Extract/Extract.required_vo: Extract/Extract.v Model/Val.vo Model/Syntax.vo Model/World.vo Model/Step.vo
-Extract/Extract.vio: Extract/Extract.v Model/Val.vio Model/Syntax.vio Model/World.vio Model/Step.vio
-Extract/Extract.vos Extract/Extract.vok Extract/Extract.required_vos: Extract/Extract.v Model/Val.vos Model/Syntax.vos Model/World.vos Model/Step.vos
+Model/Oracle.vo Model/Oracle.glob Model/Oracle.v.beautified Model/Oracle.required_vo: Model/Oracle.v Model/Val.vo Model/Syntax.vo Model/World.vo Model/Step.vo
+Model/Oracle.vio: Model/Oracle.v Model/Val.vio Model/Syntax.vio Model/World.vio Model/Step.vio
+Model/Oracle.vos Model/Oracle.vok Model/Oracle.required_vos: Model/Oracle.v Model/Val.vos Model/Syntax.vos Model/World.vos Model/Step.vos
+Extract/Extract.vo Extract/Extract.glob Extract/Extract.v.beautified Extract/Extract.required_vo: Extract/Extract.v Model/Val.vo Model/Syntax.vo Model/World.vo Model/Step.vo Model/Oracle.vo
+Extract/Extract.vio: Extract/Extract.v Model/Val.vio Model/Syntax.vio Model/World.vio Model/Step.vio Model/Oracle.vio
+Extract/Extract.vos Extract/Extract.vok Extract/Extract.required_vos: Extract/Extract.v Model/Val.vos Model/Syntax.vos Model/World.vos Model/Step.vos Model/Oracle.vos
